@@ -34,6 +34,7 @@ def clientFacts (adv : String) (listed : Bool) : Option CertFacts :=
   | "wrongkey" => some (mk true true)
   | "expired" => some (mk true false)      -- VerifyLeafFormat does not look at validity
   | "notyet" => some (mk true false)
+  | "lapsed" => some (mk true false)       -- valid when issued, run out by the time it is presented
   | "otherroot" => some (mk true false)
   | "selfsigned" => some (mk true false)
   | "wrongtype" => some (mk false false)
